@@ -111,7 +111,7 @@ structure Inv (s : St) : Prop where
   rlLive   : ((∃ cfg, s.rl = .stoppedOld cfg) ∨ s.rl = .configSet) → s.live = none
   returned : ∀ r, s.run = .returned r → s.runCancelled = true
 
-theorem inv_init (b : Bool) : Inv (init b) := by
+theorem inv_init (b : List Nat) : Inv (init b) := by
   refine ⟨ginv_nil, rfl, ?_, ?_, ?_, ?_⟩ <;> simp [init]
 
 /-! projections of the helpers -/
@@ -318,7 +318,8 @@ theorem inv_step {s s' : St} {a : Act} (h : Inv s) (hs : step s a = some s') : I
     split at hs
     · cases hs
     · rename_i hc
-      simp only [bne_iff_ne, ne_eq, Decidable.not_not] at hc
+      simp only [Bool.or_eq_true, bne_iff_ne, ne_eq, not_or, Decidable.not_not] at hc
+      obtain ⟨hc, _⟩ := hc
       split at hs
       · rename_i f hf
         obtain ⟨rfl, hal⟩ := tr_some hf
@@ -474,13 +475,13 @@ theorem inv_step {s s' : St} {a : Act} (h : Inv s) (hs : step s a = some s') : I
   | childStopRet c =>
     simp only [step] at hs
     split at hs
-    · rename_i c' rest hr
+    · rename_i p hr
       have hctx : s.rctx = true := h.ctxSet (by rw [hr]; simp)
       split at hs
       · cases hs
         exact ⟨h.g, h.nilBoot, by simp [hctx], by simp, h.rlLive, by simp⟩
       · cases hs
-    · rename_i c' rest e hr
+    · rename_i p e hr
       have hctx : s.rctx = true := h.ctxSet (by rw [hr]; simp)
       split at hs
       · cases hs
@@ -492,6 +493,47 @@ theorem inv_step {s s' : St} {a : Act} (h : Inv s) (hs : step s a = some s') : I
       split at hs
       · cases hs
         exact ⟨h.g, h.nilBoot, h.ctxSet, fun he => absurd he hne, by simp, h.returned⟩
+      · cases hs
+    · cases hs
+  | stopDone =>
+    simp only [step] at hs
+    split at hs
+    · cases hs; exact h
+    · cases hs
+  | reloadCall =>
+    simp only [step] at hs
+    cases hs
+    exact ⟨h.g, h.nilBoot, h.ctxSet, h.early, h.rlLive, h.returned⟩
+  | reloadAck st =>
+    simp only [step] at hs
+    split at hs
+    · cases hs; exact ⟨h.g, h.nilBoot, h.ctxSet, h.early, h.rlLive, h.returned⟩
+    · cases hs
+  | retAck r st =>
+    simp only [step] at hs
+    split at hs
+    · cases hs
+    · split at hs
+      · split at hs
+        · cases hs; exact ⟨h.g, h.nilBoot, h.ctxSet, h.early, h.rlLive, h.returned⟩
+        · cases hs
+      · cases hs
+  | observe st =>
+    simp only [step] at hs
+    split at hs
+    · cases hs; exact h
+    · cases hs
+  | childStopInv c =>
+    simp only [step] at hs
+    split at hs
+    · split at hs
+      · cases hs; exact h
+      · cases hs
+    · split at hs
+      · cases hs; exact h
+      · cases hs
+    · split at hs
+      · cases hs; exact h
       · cases hs
     · cases hs
 
